@@ -344,3 +344,33 @@ Proof.
             [(30%N, []); (41%N, [])]) with [(1%N, @nil value)].
   eapply sne_keep; [reflexivity | reflexivity | constructor].
 Qed.
+
+Example C07_LA_pipe_uqd_certified_nonvacuous :
+  Forall certified C06_pipe.LU.stages /\
+  st_aux (compose_all C06_pipe.LU.stages C06_pipe.LU.P3) = 1%nat /\
+  st_rel (compose_all C06_pipe.LU.stages C06_pipe.LU.P3) C06_pipe.LQ.s0 (with_fk C06_pipe.LQ.fk C06_pipe.LQ.s0) /\
+  valid_plan false C06_pipe.LU.P0 C06_pipe.LQ.s0 [(1%N, [])] = true /\
+  valid_plan false C06_pipe.LU.P3 (with_fk C06_pipe.LQ.fk C06_pipe.LQ.s0) [(30%N, []); (41%N, [])] = true.
+Proof.
+  split; [exact C06_pipe.LU.all_certified|]. split; [reflexivity|]. split; [|split; vm_compute; reflexivity].
+  assert (HG : C06_pipe.LU.G C06_pipe.LQ.s0) by (split; [exists false | exists false]; reflexivity).
+  exists C06_pipe.LQ.s0. split.
+  - split; [|exact HG]. split; [intros g a _; reflexivity | intros f t a Hf; discriminate].
+  - exists C06_pipe.LQ.s0. split.
+    + split; [reflexivity|]. intros f args Hb. unfold C06_pipe.LQ.s0. destruct (f =? C06_pipe.LQ.fk)%N; [left; reflexivity | right; exists false; reflexivity].
+    + exists (with_fk C06_pipe.LQ.fk C06_pipe.LQ.s0). split; [|reflexivity].
+      apply dcrg_rel_init; [exact HG | vm_compute; reflexivity].
+Qed.
+
+(* NegativeConditionsRemover as a certified stage on the example problem of Proofs/LayerA_Neg_proofs.v *)
+Require Import UPV.Proofs.LayerA_Neg_proofs.
+Example C07_LA_pipe_ncr_stage_certified_nonvacuous :
+  certified (ncr_stage NegEx.nm (nrw (ng NegEx.nm)) NegEx.idf NegEx.Pe) /\
+  st_rel (ncr_stage NegEx.nm (nrw (ng NegEx.nm)) NegEx.idf NegEx.Pe) NegEx.se NegEx.se' /\
+  valid_plan false NegEx.Pe NegEx.se NegEx.plan = true /\
+  valid_plan false (st_dst (ncr_stage NegEx.nm (nrw (ng NegEx.nm)) NegEx.idf NegEx.Pe)) NegEx.se' NegEx.plan = true.
+Proof.
+  split; [apply ncr_stage_certified; [vm_compute; reflexivity | vm_compute; reflexivity | vm_compute; reflexivity |
+                                      exact NegEx.rwok | exact NegEx.smpok]|].
+  split; [exact NegEx.rel|]. split; vm_compute; reflexivity.
+Qed.
